@@ -4,6 +4,7 @@ from __future__ import annotations
 import ast
 
 from pta import paths as P
+from pta.pat import find, has
 from pta.check import Spec
 from pta.model import AnalysisError
 from pta.rules.common import short
@@ -82,7 +83,10 @@ def r_raise_reach(c):
         qn = D + "partition." + fn
         fd = m.func(qn)
         ok = qn in cg and any(
-            isinstance(i, ast.If) and "local_rank ==" in ast.unparse(i.test)
+            isinstance(i, ast.If) and isinstance(i.test, ast.Compare)
+            and isinstance(i.test.ops[0], ast.Eq)
+            and fd.args.args[0].arg in (ast.unparse(i.test.left),
+                                        ast.unparse(i.test.comparators[0]))
             and any(isinstance(s, ast.Raise) for s in i.body) for i in ast.walk(fd))
         # the test precedes the construction of the identifier
         def cl(n):
@@ -90,7 +94,7 @@ def r_raise_reach(c):
                 return "RAISE"
             if isinstance(n, ast.Call) and ast.unparse(n.func) == "CommunicationOpIdentifier":
                 return "MAKE"
-            if isinstance(n, ast.Compare) and "local_rank" in ast.unparse(n):
+            if isinstance(n, ast.Compare) and fd.args.args[0].arg in ast.unparse(n):
                 return "TEST"
             return None
         ps = P.walk(fd, cl)
@@ -123,70 +127,87 @@ def _self_tbl(n):
     return isinstance(n, ast.Attribute) and isinstance(n.value, ast.Name) and n.value.id == "self"
 
 
+def _raising_membership_tests(fd):
+    """(key text, table text, If) for every `if K in T: ... raise` in fd"""
+    out = []
+    for i in ast.walk(fd):
+        if isinstance(i, ast.If) and isinstance(i.test, ast.Compare) and len(i.test.ops) == 1 \
+                and isinstance(i.test.ops[0], ast.In) \
+                and any(isinstance(s, ast.Raise) for s in i.body):
+            out.append((ast.unparse(i.test.left), ast.unparse(i.test.comparators[0]), i))
+    return out
+
+
 def r_check_before_insert(c):
     m = c.model
     G = D + "partition._LocalSendRecvDepGatherer"
-    specs = [(G + ".map_distributed_send_ref_holder", "self.local_send_id_to_send_node", "send_id"),
-             (G + ".map_distributed_recv", "self.local_recv_id_to_recv_node", "recv_id"),
-             (D + "verify.verify_distributed_partition", "comm_id_to_sending_pid", "comm_id"),
-             (D + "verify.verify_distributed_partition", "all_recvs", "comm_id")]
-    for qn, tbl, key in specs:
+    specs = [(G + ".map_distributed_send_ref_holder", 1, "DuplicateSendError"),
+             (G + ".map_distributed_recv", 1, "DuplicateRecvError"),
+             (D + "verify.verify_distributed_partition", 2, "Duplicate")]
+    for qn, need, err in specs:
         fd = m.func(qn)
-
-        def cl(n, tbl=tbl, key=key):
-            if isinstance(n, ast.Compare) and len(n.ops) == 1 and isinstance(n.ops[0], ast.In) \
-                    and ast.unparse(n.left) == key and ast.unparse(n.comparators[0]) == tbl:
-                return "TEST"
-            if isinstance(n, ast.Subscript) and isinstance(n.ctx, ast.Store) \
-                    and ast.unparse(n.value) == tbl and ast.unparse(n.slice) == key:
-                return "INSERT"
-            if isinstance(n, ast.Call) and ast.unparse(n.func) == f"{tbl}.add" \
-                    and n.args and ast.unparse(n.args[0]) == key:
-                return "INSERT"
-            return None
-        ps = P.walk(fd, cl)
         where = m.loc(m.module_of(fd), fd)
-        has = any("INSERT" in e for e, _x in ps)
-        # within one loop iteration: each INSERT directly preceded by a TEST since
-        # the previous INSERT
-        bad = []
-        for e, _x in ps:
-            seen_test = False
-            for lab in e:
-                if lab == "TEST":
-                    seen_test = True
-                elif lab == "INSERT":
-                    if not seen_test:
-                        bad.append(e)
-                        break
-                    seen_test = False
-        c.check(has and not bad, "R10-CHECK-BEFORE-INSERT", qn.replace("pytato.", "", 1),
-                f"{tbl}[{key}]", where,
-                f"an insertion into {tbl} is not preceded by a membership test on the "
-                "same key: a duplicate would silently overwrite the first entry")
-        # the membership test raises
-        ok = any(isinstance(i, ast.If) and cl(i.test) == "TEST"
-                 and any(isinstance(s, ast.Raise) for s in i.body) for i in ast.walk(fd))
-        c.check(ok, "R10-CHECK-BEFORE-INSERT", qn.replace("pytato.", "", 1),
-                f"{tbl}[{key}]:duplicate-raises", where,
-                f"finding {key} already in {tbl} does not raise")
+        name = qn.replace("pytato.", "", 1)
+        tests = [(k, t, i) for (k, t, i) in _raising_membership_tests(fd)
+                 if any(err in ast.unparse(s) for s in i.body)]
+        c.check(len(tests) >= need, "R10-CHECK-BEFORE-INSERT", name,
+                f"has-{need}-raising-duplicate-test(s)", where,
+                f"fewer than {need} `if key in table: raise {err}...` tests: a duplicate "
+                "send/receive identifier is no longer diagnosed")
+        for key, tbl, iff in tests:
+            def cl(n, tbl=tbl, key=key):
+                if isinstance(n, ast.Compare) and len(n.ops) == 1 and isinstance(n.ops[0], ast.In) \
+                        and ast.unparse(n.left) == key and ast.unparse(n.comparators[0]) == tbl:
+                    return "TEST"
+                if isinstance(n, ast.Subscript) and isinstance(n.ctx, ast.Store) \
+                        and ast.unparse(n.value) == tbl and ast.unparse(n.slice) == key:
+                    return "INSERT"
+                if isinstance(n, ast.Call) and ast.unparse(n.func) == f"{tbl}.add" \
+                        and n.args and ast.unparse(n.args[0]) == key:
+                    return "INSERT"
+                return None
+            ps = P.walk(fd, cl)
+            has_ins = any("INSERT" in e for e, _x in ps)
+            bad = []
+            for e, _x in ps:
+                seen_test = False
+                for lab in e:
+                    if lab == "TEST":
+                        seen_test = True
+                    elif lab == "INSERT":
+                        if not seen_test:
+                            bad.append(e)
+                            break
+                        seen_test = False
+            c.check(has_ins and not bad, "R10-CHECK-BEFORE-INSERT", name,
+                    f"{tbl}[{key}]", m.loc(m.module_of(fd), iff),
+                    f"the table {tbl} tested for duplicates is not filled under the same "
+                    "key right after the test on every path: a duplicate would silently "
+                    "overwrite the first entry or the test never sees earlier entries")
     # missing send / missing receive
     v = m.func(D + "verify.verify_distributed_partition")
-    vs = ast.unparse(v)
-    c.check("except KeyError as err:" in vs and "raise MissingSendError" in vs
-            and "comm_id_to_sending_pid[comm_id]" in vs, "R10-CHECK-BEFORE-INSERT",
+    ms = find(v, """
+try:
+    $pid = $senders[$id]
+except KeyError as $e:
+    raise MissingSendError($$msg) from $e
+""")
+    c.check(len(ms) == 1, "R10-CHECK-BEFORE-INSERT",
             "distributed.verify.verify_distributed_partition", "recv-without-send-raises",
             m.loc(m.module_of(v), v), "a receive without a matching send is not diagnosed")
-    c.check("for s in comm_id_to_sending_pid:" in vs and "if s not in all_recvs:" in vs
-            and "raise MissingRecvError" in vs, "R10-CHECK-BEFORE-INSERT",
+    mr = find(v, """
+for $s in $senders:
+    if $s not in $recvs:
+        raise MissingRecvError($$msg)
+""")
+    c.check(len(mr) == 1 and (not ms or mr[0]["$senders"] == ms[0]["$senders"]),
+            "R10-CHECK-BEFORE-INSERT",
             "distributed.verify.verify_distributed_partition", "send-without-recv-raises",
             m.loc(m.module_of(v), v), "a send without a matching receive is not diagnosed")
     f = m.func(D + "partition.find_distributed_partition")
-    fs = ast.unparse(f)
-    c.check("if recv_id not in lsrdg.local_recv_id_to_recv_node:" in fs
-            and "raise MissingRecvError" in fs
-            and "if send_id not in lsrdg.local_send_id_to_send_node:" in fs
-            and "raise MissingSendError" in fs, "R10-CHECK-BEFORE-INSERT",
+    a = find(f, "if $r not in $g.local_recv_id_to_recv_node:\n    raise MissingRecvError($$m)")
+    b = find(f, "if $s not in $g.local_send_id_to_send_node:\n    raise MissingSendError($$m)")
+    c.check(len(a) == 1 and len(b) == 1, "R10-CHECK-BEFORE-INSERT",
             "distributed.partition.find_distributed_partition", "scheduled-ids-exist-locally",
             m.loc(m.module_of(f), f),
             "a communication id scheduled for this rank without a local node is not "
@@ -217,51 +238,65 @@ def r_who_may_construct(c):
 def r_cycle(c):
     m = c.model
     fd = m.func(D + "partition._calculate_dependency_levels")
-    src = ast.unparse(fd)
     where = m.loc(m.module_of(fd), fd)
     inner = [x for x in ast.walk(fd) if isinstance(x, ast.FunctionDef) and x is not fd][0]
+    tid = inner.args.args[0].arg
+    cyc = find(inner, f"if {tid} in $seen:\n    raise CycleError($$msg)")
+    c.check(len(cyc) == 1, "R10-CYCLE", "distributed.partition._calculate_dependency_levels",
+            "revisit-raises-CycleError", where,
+            "revisiting a node whose level is unknown does not raise CycleError")
+    seen = cyc[0]["$seen"] if cyc else "seen"
+    done = find(inner, f"if {tid} in $levels:\n    return $levels[{tid}]")
+    levels = done[0]["$levels"] if done else "?"
 
     def cl(n):
-        if isinstance(n, ast.Compare) and ast.unparse(n) == "task_id in task_to_dep_level":
+        if isinstance(n, ast.Compare) and ast.unparse(n) == f"{tid} in {levels}":
             return "DONE?"
-        if isinstance(n, ast.Compare) and ast.unparse(n) == "task_id in seen":
+        if isinstance(n, ast.Compare) and ast.unparse(n) == f"{tid} in {seen}":
             return "SEEN?"
-        if isinstance(n, ast.Call) and ast.unparse(n.func) == "seen.add":
+        if isinstance(n, ast.Call) and ast.unparse(n.func) == f"{seen}.add":
             return "MARK"
         if isinstance(n, ast.Call) and ast.unparse(n.func) == inner.name:
             return "RECURSE"
         return None
     ps = P.walk(inner, cl)
-    bad = P.precedes(ps, "MARK", "RECURSE") + P.precedes(ps, "SEEN?", "MARK")
-    c.check(not bad and any("RECURSE" in e for e, _x in ps), "R10-CYCLE",
+    bad = P.precedes(ps, "MARK", "RECURSE") + P.precedes(ps, "SEEN?", "MARK") \
+        + P.precedes(ps, "DONE?", "SEEN?")
+    c.check(bool(done) and not bad and any("RECURSE" in e for e, _x in ps), "R10-CYCLE",
             "distributed.partition._calculate_dependency_levels",
-            "seen-test-then-mark-then-recurse", where,
-            "the depth-first search does not test and mark a node before recursing into "
-            "its dependencies: a cycle recurses forever or goes unnoticed")
-    c.check("if task_id in seen:" in src and "raise CycleError" in src, "R10-CYCLE",
-            "distributed.partition._calculate_dependency_levels", "revisit-raises-CycleError",
-            where, "revisiting a node whose level is unknown does not raise CycleError")
+            "done-test-seen-test-mark-recurse", where,
+            "the depth-first search does not (1) return finished nodes, (2) test and (3) "
+            "mark a node before (4) recursing into its dependencies: a cycle recurses "
+            "forever or goes unnoticed")
     f = m.func(D + "partition.find_distributed_partition")
+    comm = f.args.args[0].arg
     # exception of the root is broadcast before it is re-raised (R09 checks sequences)
-    ok = False
-    for h in ast.walk(f):
-        if isinstance(h, ast.ExceptHandler) and h.type is not None and ast.unparse(h.type) == "Exception":
-            b = [ast.unparse(s) for s in h.body]
-            ok = len(b) == 2 and b[0].startswith("mpi_communicator.bcast(") and b[1] == "raise"
+    ok = has(f, f"""
+try:
+    $b = _schedule_task_batches($$x)
+except Exception as $e:
+    {comm}.bcast($e)
+    raise
+else:
+    {comm}.bcast($b)
+""")
     c.check(ok, "R10-CYCLE", "distributed.partition.find_distributed_partition",
             "root-broadcasts-exception-then-reraises", m.loc(m.module_of(f), f),
-            "the root does not broadcast the scheduling exception before re-raising it: "
-            "the other ranks hang in bcast or continue without a schedule")
-    c.check("if isinstance(comm_batches_or_exc, Exception):" in ast.unparse(f)
-            and "raise comm_batches_or_exc" in ast.unparse(f), "R10-CYCLE",
-            "distributed.partition.find_distributed_partition", "others-raise-what-they-receive",
-            m.loc(m.module_of(f), f), "non-root ranks do not raise the broadcast exception")
+            "the root does not broadcast the scheduling exception before re-raising it "
+            "(and the schedule otherwise): the other ranks hang in bcast or continue "
+            "without a schedule")
+    c.check(has(f, f"$r = {comm}.bcast(None)\nif isinstance($r, Exception):\n    raise $r"),
+            "R10-CYCLE", "distributed.partition.find_distributed_partition",
+            "others-raise-what-they-receive", m.loc(m.module_of(f), f),
+            "non-root ranks do not raise the broadcast exception")
     v = m.func(D + "verify.verify_distributed_partition")
-    vs = ast.unparse(v)
-    c.check("compute_topological_order(pid_to_needed_pids)" in vs and "except CycleError as err:" in vs
-            and "raise PartitionInducedCycleError from err" in vs, "R10-CYCLE",
-            "distributed.verify.verify_distributed_partition", "cycle-among-parts-diagnosed",
-            m.loc(m.module_of(v), v),
+    c.check(has(v, """
+try:
+    compute_topological_order($g)
+except CycleError as $e:
+    raise PartitionInducedCycleError from $e
+"""), "R10-CYCLE", "distributed.verify.verify_distributed_partition",
+            "cycle-among-parts-diagnosed", m.loc(m.module_of(v), v),
             "a cycle among the parts of all ranks is not converted into "
             "PartitionInducedCycleError")
 
@@ -269,7 +304,7 @@ def r_cycle(c):
 SPEC = Spec(
     prop="C10",
     rules=[r_raise_reach, r_check_before_insert, r_who_may_construct, r_cycle],
-    floors={"R10-RAISE-REACH": 8, "R10-CHECK-BEFORE-INSERT": 11, "R10-SELF": 4, "R10-CYCLE": 5},
+    floors={"R10-RAISE-REACH": 8, "R10-CHECK-BEFORE-INSERT": 10, "R10-SELF": 4, "R10-CYCLE": 5},
     explanation=(
         "Decides code-shape conditions, not 'every malformed pattern is caught'. "
         "R10-RAISE-REACH: each diagnostic the property names has a raise site "
